@@ -18,6 +18,56 @@ def seq_part(ctx):
         c08(ctx, e)
 
 
+def shared_context_part(ctx):
+    """operation ids allocated by several threads on ONE DurableContext (user threads or branches closing over an outer context;
+    `_create_step_id()` is documented as thread-safe): under every preemption-bounded schedule the ids handed out are exactly
+    blake2b('<parent>-1') .. blake2b('<parent>-n'), each once"""
+    import json
+    from harness import detsched as ds
+    from harness import install
+    from harness.explore import explore
+    from harness.interp import op_id
+    mods = install.install()
+    ctxmod = mods["context"]
+
+    def run_once(strategy, n_threads, per_thread, parent):
+        dctx = ctxmod.DurableContext.__new__(ctxmod.DurableContext)
+        dctx._parent_id = parent
+        dctx._step_counter = mods["threading"].OrderedCounter()
+        got = []
+
+        def worker():
+            for _ in range(per_thread):
+                got.append(dctx._create_step_id())
+
+        def main():
+            ts = [ds.Thread(target=worker, name=f"u{k + 1}") for k in range(n_threads)]
+            for t in ts:
+                t.start()
+            for t in ts:
+                t.join()
+        sched = ds.Scheduler(strategy, max_steps=20000, hang_after=5.0)
+        sched.run(main, name="main")
+        return {"got": got, "verdict": sched.verdict, "choices": sched.choices, "steps": sched.steps}
+
+    n = 0
+    for (nt, per, parent) in [(2, 1, None), (2, 2, "p" * 64), (3, 1, "q" * 64)]:
+        want = sorted(op_id(parent, k) for k in range(1, nt * per + 1))
+        for r, _st in explore(lambda s, a=(nt, per, parent): run_once(s, *a), max_preempt=2, max_runs=(150 if ctx.quick else 4000)):
+            n += 1
+            ctx.case(("shared-ctx", nt, per, tuple(r["choices"] or ())[:300]))
+            scen = {"kind": "shared-context", "threads": nt, "per_thread": per, "choices": r["choices"]}
+            if r["verdict"] in ("hang", "deadlock", "steps"):
+                ctx.violation("id-allocation-wedged", f"threads allocating ids on a shared context never return ({r['verdict']})", scen)
+                return
+            if sorted(r["got"]) != want:
+                dup = len(r["got"]) - len(set(r["got"]))
+                ctx.violation("id-collision", f"{nt} threads x {per} allocations on one context: {dup} duplicate id(s), "
+                              f"{len(set(r['got']) - set(want))} unexpected id(s)", scen)
+                return
+    ctx.notes["shared_context_schedules"] = n
+
+
 def run(ctx):
     run_conc(ctx, invs=["ConcurrencyBound"], oracle_fns=[c08], sweep_kw={"scripts_sets": [[["step", "ok"], ["step", "ok"]]]},
              post=lambda c, ex: seq_part(c),
@@ -25,6 +75,7 @@ def run(ctx):
                         "and checks Id, ParentId of every update in every invocation under schedules that permute branch start and "
                         "completion order, in-process resubmission and re-invocation; ids unique per position, stable across invocations. "
                         "(Collision-freeness of blake2b itself is assumed.)")
+    shared_context_part(ctx)
     from checks import c19 as lockcheck
     ctx.notes["counter_gap_free"] = "per-context counters are OrderedCounter: see C19 (OrderedLock.tla CounterGapFree)"
 
